@@ -65,6 +65,10 @@ type Case struct {
 	Stack    []Layer  `json:"stack"`
 	Paths    []string `json:"paths,omitempty"`
 	Patterns []string `json:"patterns,omitempty"`
+	// Then: a later state of the same layers (same length, nil-ness and kind as Stack). The
+	// layers' backing stores are changed IN PLACE after the first round of queries and the SAME
+	// overlay value is queried again: every answer reflects the layers as they are at the call.
+	Then []Layer `json:"then,omitempty"`
 }
 
 var defaultPaths = []string{".", "a", "d", "d/x", "d/y", "e", "e/z", "nope", "d/nope", "a/nope"}
@@ -98,6 +102,14 @@ func build(l Layer, idx int) fs.FS {
 	if l.Nil {
 		return nil
 	}
+	m := buildMap(l, idx)
+	if l.Kind == "strict" {
+		return strictFS{m}
+	}
+	return m
+}
+
+func buildMap(l Layer, idx int) fstest.MapFS {
 	m := fstest.MapFS{}
 	for p, e := range closure(l) {
 		mt := time.Unix(int64(1000*(idx+1)+len(p)), 0)
@@ -110,9 +122,6 @@ func build(l Layer, idx int) fs.FS {
 			}
 			m[p] = &fstest.MapFile{Data: []byte(e.Content), Mode: mode, ModTime: mt}
 		}
-	}
-	if l.Kind == "strict" {
-		return strictFS{m}
 	}
 	return m
 }
@@ -152,10 +161,52 @@ func children(m map[string]Entry, dir string) map[string]Entry {
 }
 
 func check(c Case) error {
+	if len(c.Then) > 0 {
+		return checkMutate(c)
+	}
 	if c.Nest > 0 {
 		return checkNested(c)
 	}
 	return checkStack(c, nil)
+}
+
+// checkMutate queries one overlay before and after its layers change underneath it.
+func checkMutate(c Case) error {
+	if len(c.Then) != len(c.Stack) {
+		return nil
+	}
+	maps := make([]fstest.MapFS, len(c.Stack))
+	fss := make([]fs.FS, len(c.Stack))
+	then := make([]Layer, len(c.Stack))
+	for i, l := range c.Stack {
+		then[i] = c.Then[i]
+		then[i].Nil, then[i].Kind = l.Nil, l.Kind
+		if l.Nil {
+			continue
+		}
+		maps[i] = buildMap(l, i)
+		fss[i] = maps[i]
+		if l.Kind == "strict" {
+			fss[i] = strictFS{maps[i]}
+		}
+	}
+	o := vuego.NewOverlayFS(fss[0], fss[1:]...)
+	if err := checkStack(Case{Stack: c.Stack, Paths: c.Paths, Patterns: c.Patterns}, o); err != nil {
+		return fmt.Errorf("first state: %w", err)
+	}
+	for i, l := range then {
+		if l.Nil {
+			continue
+		}
+		clear(maps[i])
+		for p, f := range buildMap(l, i) {
+			maps[i][p] = f
+		}
+	}
+	if err := checkStack(Case{Stack: then, Paths: c.Paths, Patterns: c.Patterns}, o); err != nil {
+		return fmt.Errorf("same overlay queried again after its layers changed in place: %w", err)
+	}
+	return nil
 }
 
 // checkNested builds mid / x / y by nesting and checks each against the flat model.
@@ -442,6 +493,9 @@ func classify(c Case) (bool, []string) {
 	if c.Nest > 0 {
 		cls = append(cls, fmt.Sprintf("nested-base=%d", c.Nest), "two-overlays-derived-from-one-base")
 	}
+	if len(c.Then) > 0 {
+		cls = append(cls, "layers-change-between-queries")
+	}
 	return nt, cls
 }
 
@@ -608,6 +662,52 @@ func TestProp(t *testing.T) {
 			rec.Exhaustive(fmt.Sprintf("all two-layer stacks over {d/x, d-b/x, d.o/x, d as a file} x layer kinds {MapFS, Open-only with ENOTDIR} (%d stacks)", np))
 		}
 	}
+
+	// layers changing underneath one overlay value: two-layer stacks, one layer replaced
+	if run.First() {
+		var up, lo []Layer
+		for i, l := range layerChoices(0) {
+			if !l.Nil && i%8 == 1 {
+				up = append(up, l)
+			}
+		}
+		for i, l := range layerChoices(1) {
+			if !l.Nil && i%9 == 2 {
+				lo = append(lo, l)
+			}
+		}
+		okM := true
+		nm := 0
+		for _, u := range up {
+			for _, l := range lo {
+				for _, u2 := range up {
+					for which := 0; which < 2 && okM; which++ {
+						c := Case{Stack: []Layer{u, l}, Then: []Layer{u2, l}}
+						if which == 1 {
+							l2 := lo[(nm*5+3)%len(lo)]
+							c.Then = []Layer{u, l2}
+						}
+						nm++
+						_, cls := classify(c)
+						if !run.Each(rec, "mutate-enum", c, true, cls, check) {
+							okM = false
+						}
+					}
+				}
+			}
+		}
+	}
+	run.Rapid(t, rec, "mutate", func(t *rapid.T) Case {
+		n := rapid.IntRange(1, 3).Draw(t, "layers")
+		c := Case{}
+		for i := 0; i < n; i++ {
+			c.Stack = append(c.Stack, genLayer(t, i))
+			c.Then = append(c.Then, genLayer(t, i))
+		}
+		c.Paths = []string{".", "a", "b", "d", "d/x", "d/y", "d/s", "e", "e/z", "zz", "d-b/x"}
+		c.Patterns = []string{"*", "*/*", "d/*", "d*/x"}
+		return c
+	}, func(c Case) (bool, []string) { _, cls := classify(c); return true, cls }, check)
 
 	// nested construction: deterministic small cases + random
 	if run.First() {
